@@ -57,7 +57,7 @@ class ScriptedNeuron(InfernoNeuron):
         return self.spike_
 
 
-RED = {"sum": torch.sum, "mean": torch.mean, "amax": torch.amax}
+RED = {"sum": torch.sum, "mean": torch.mean, "amax": torch.amax, "amin": torch.amin}
 
 
 DEDICATED = ("DelayAdjustedSTDP", "DelayAdjustedSTDPD", "DelayAdjustedMSTDP", "DelayAdjustedMSTDPD")
@@ -112,11 +112,29 @@ def mk_trainer(t, shape=None):
         kw = {"delayed": bool(t.get("delayed", False))} if cls == "KernelSTDP" else {}
         kpost = zero_kernel if t.get("zero_kernels") else functional.exp_stdp_post_kernel
         kpre = zero_kernel if t.get("zero_kernels") else functional.exp_stdp_pre_kernel
-        return getattr(learn, cls)(kpost, kpre,
-                                   {"learning_rate": hp(t, "lr_post", shape), "time_constant": hp(t, "tc_post", shape)},
-                                   {"learning_rate": hp(t, "lr_pre", shape), "time_constant": hp(t, "tc_pre", shape)},
-                                   batch_reduction=red, **kw)
+        post = {"learning_rate": hp(t, "lr_post", shape), "time_constant": hp(t, "tc_post", shape)}
+        pre = {"learning_rate": hp(t, "lr_pre", shape), "time_constant": hp(t, "tc_pre", shape)}
+        ORIGINALS.clear()      # the caller's own objects, as handed to the constructor
+        ORIGINALS.update({"lr_post": post["learning_rate"], "tc_post": post["time_constant"],
+                          "lr_pre": pre["learning_rate"], "tc_pre": pre["time_constant"]})
+        return getattr(learn, cls)(kpost, kpre, post, pre, batch_reduction=red, **kw)
     raise ValueError(cls)
+
+
+ORIGINALS = {}
+
+
+def inplace_op(tensor, op):
+    """an in-place change of a tensor-valued hyperparameter: mul_, fill_ or copy_"""
+    with torch.no_grad():
+        if op["op"] == "mul_":
+            tensor.mul_(op["arg"])
+        elif op["op"] == "fill_":
+            tensor.fill_(op["arg"])
+        elif op["op"] == "copy_":
+            tensor.copy_(torch.full_like(tensor, op["arg"]))
+        else:
+            raise ValueError(op["op"])
 
 
 def override_kwargs(t, keys, extra, shape):
@@ -142,7 +160,7 @@ def override_kwargs(t, keys, extra, shape):
     return kw
 
 
-def apply_reassign(state, ra, types, shape):
+def apply_reassign(state, ra, types, shape, ops=None):
     """re-assign attributes of the per-cell state module (the object register_cell returns as unit.state) after
     registration, as a user re-configuring a cell mid-run does; the forward passes read the state live"""
     types = types or {}
@@ -162,7 +180,9 @@ def apply_reassign(state, ra, types, shape):
             side = "post" if k.endswith("post") else "pre"
             name = "learning_rate" if k.startswith("lr") else "time_constant"
             mod = getattr(state, f"kernel_{side}_tensor_kwargs")
-            if name in dict(mod.named_buffers()):          # tensor-valued: stored as a buffer of the state
+            if ops and k in ops:                           # the cell's OWN buffer is changed in place
+                inplace_op(getattr(mod, name), ops[k])
+            elif name in dict(mod.named_buffers()):        # tensor-valued: stored as a buffer of the state
                 setattr(mod, name, wrap(v, "t0", shape))
             else:                                          # plain value: entry of the keyword dictionary
                 getattr(state, f"kernel_{side}_kwargs")[name] = wrap(v, types.get(k), shape)
@@ -211,7 +231,11 @@ def run_cells(defaults, cells):
                 B = case["B"]
                 if st.get("reassign"):
                     apply_reassign(tr.get_unit(f"c{j}").state, st["reassign"], st.get("reassign_types"),
-                                   tuple(conn.weight.shape))
+                                   tuple(conn.weight.shape), st.get("reassign_ops"))
+                for key, op in (st.get("original_ops") or {}).items():
+                    # the caller keeps using (and changing) the tensor object given to the constructor: no registered
+                    # cell may notice (its copy was cloned at registration)
+                    inplace_op(ORIGINALS[key], op)
                 if st.get("delay") is not None and conn.delay is not None:
                     with torch.no_grad():
                         conn.delay = torch.tensor(st["delay"], dtype=torch.float64).reshape(conn.delay.shape)
